@@ -183,8 +183,22 @@ def pre(ctx):
 
 # ---------------------------------------------------------------- (b) random colliding sets
 
+# identifiers that are not C keywords but are names the runtime knows by itself (standard typedefs, cffi's
+# common types) or that begin with a keyword of the type-string tokenizer: a module may declare them, and
+# then its own entry is what the lookup has to find (cf. test_override_default_definition)
+SPECIAL = ['bool', 'int8_t', 'uint8_t', 'int16_t', 'uint16_t', 'int32_t', 'uint32_t', 'int64_t', 'uint64_t',
+           'intptr_t', 'uintptr_t', 'size_t', 'ssize_t', 'ptrdiff_t', 'intmax_t', 'uintmax_t', 'wchar_t',
+           'char16_t', 'char32_t', 'FILE', 'off_t', 'int_least8_t', 'uint_least64_t', 'int_fast16_t',
+           'uint_fast32_t', 'va_list', '_cffi_float_complex_t', '_cffi_double_complex_t', 'boolean', 'int_',
+           'intx', 'longlong', 'shorts', 'chars', 'floats', 'doubles', 'voids', 'signed_', 'unsigned_',
+           'structs', 'unions', 'enums', 'consts', 'volatiles', '_Bool_', '_Complexx', '__int128_',
+           '__stdcall_', '__cdecl_', 'restrict_', 'complex', 'int8', 'uint', 'Bool', '_bool', '__int128_t',
+           'BOOL', 'DWORD', 'HANDLE', 'wint_t', 'time_t', 'pid_t']
+SPECIAL_SET = frozenset(SPECIAL)
+
+
 def _valid(n):
-    return 0 < len(n) <= 40 and n[0] not in '01' and all(c in ALPHA for c in n)
+    return n in SPECIAL_SET or (0 < len(n) <= 40 and n[0] not in '01' and all(c in ALPHA for c in n))
 
 
 def strategy(ctx):
@@ -223,6 +237,9 @@ def strategy(ctx):
                 out.append(n)
         if not out:
             out = ['a']
+        if draw(st.integers(0, 2)) == 0:
+            for sp in draw(st.lists(st.sampled_from(SPECIAL), min_size=1, max_size=4, unique=True)):
+                out.insert(draw(st.integers(0, len(out))), sp)
         return out
 
     def with_probes(ns):
@@ -241,7 +258,7 @@ def _probes(names, extra):
     out = []
 
     def add(p):
-        if _valid(p) and p not in s and p not in out:
+        if _valid(p) and p not in SPECIAL_SET and p not in s and p not in out:      # (bool *is* a type)
             out.append(p)
     for n in names:
         add(n[:-1])
@@ -298,14 +315,17 @@ def prop(case, ctx):
     with warnings.catch_warnings():
         warnings.simplefilter('ignore')
         _counter[0] += 1
-        ffi, lib, text = _abi_module(names, _counter[0], ctx.tmp, bool(case.get('file')))
-        if case.get('file'):
+        # (a cdef that uses the implicit FILE and then declares a FILE of its own is not valid C)
+        uses_file = bool(case.get('file')) and 'FILE' not in names
+        ffi, lib, text = _abi_module(names, _counter[0], ctx.tmp, uses_file)
+        if uses_file:
             ctx.event('cdef-uses-FILE')
         _check(ffi, lib, names, probes, dict((n, 'ctse') for n in names), ctx, {'names': names, 'mode': 'ABI'})
-        if case.get('api'):
-            roles = dict((n, 'ctse'[i % 4]) for i, n in enumerate(sorted(names)))
-            ffi2, lib2 = _api_module(names, roles, ctx)
-            _check(ffi2, lib2, names, probes, roles, ctx, {'names': names, 'mode': 'API', 'roles': roles})
+        api_names = [n for n in names if n not in SPECIAL_SET]     # (the C headers own those names)
+        if case.get('api') and api_names:
+            roles = dict((n, 'ctse'[i % 4]) for i, n in enumerate(sorted(api_names)))
+            ffi2, lib2 = _api_module(api_names, roles, ctx)
+            _check(ffi2, lib2, api_names, probes, roles, ctx, {'names': api_names, 'mode': 'API', 'roles': roles})
     s = sorted(names)
     prefix = any(b.startswith(a) for a, b in zip(s, s[1:]))
     cls = ['size<=4' if len(names) <= 4 else 'size<=16' if len(names) <= 16 else 'size>16',
@@ -316,6 +336,8 @@ def prop(case, ctx):
         cls.append('case-variants')
     if any(len(n) > 16 for n in names):
         cls.append('long-names')
+    if any(n in SPECIAL_SET for n in names):
+        cls.append('standard-or-keyword-like-names')
     ctx.note(sorted(names), prefix, cls)
 
 
